@@ -485,7 +485,7 @@ func (u *Unit) builtin(st *State, v ssa.Value, b *ssa.Builtin, c *ssa.CallCommon
 		m, k := u.val(st, c.Args[0]), u.val(st, c.Args[1])
 		dn, ds, _, _ := u.mapHeaps(c.Args[0].Type())
 		dh := u.heap(st, dn, ds)
-		u.setHeap(st, dn, ds, ite(eq(m, "0"), dh, sx("store", dh, m, sx("store", sx("select", dh, m), k, "false"))))
+		u.setHeapTracked(st, dn, ds, ite(eq(m, "0"), dh, sx("store", dh, m, sx("store", sx("select", dh, m), k, "false"))), m, false)
 	case "ssa:wrapnilchk":
 		p := u.val(st, c.Args[0])
 		u.safety(st, "nilderef", not(eq(p, "0")), instr.Pos())
@@ -558,7 +558,7 @@ func (u *Unit) appendOp(st *State, v ssa.Value, c *ssa.CallCommon, instr ssa.Ins
 		u.s.assume(implies(st.reach, fmt.Sprintf("(forall ((i Int)) (! (=> (and (<= %s i) (< i (+ %s %s))) (= (select %s i) (select (select %s %s) (ix %s (- i %s))))) :pattern ((select %s i))))",
 			ls, ls, le, content, h, sx("slc_arr", e), sx("slc_off", e), ls, content)))
 	}
-	u.setHeap(st, hn, hs, sx("store", h, r, content))
+	u.setHeapTracked(st, hn, hs, sx("store", h, r, content), r, true)
 	nl := u.s.define("applen", SInt, sx("+", ls, le))
 	cp := u.s.fresh("appcap", SInt)
 	u.s.assume(implies(st.reach, sx(">=", cp, nl)))
